@@ -15,6 +15,7 @@ import (
 	"strings"
 	"sync"
 	"sync/atomic"
+	"syscall"
 	"time"
 
 	"mellium.im/xmlstream"
@@ -88,6 +89,7 @@ type env struct {
 	lst2Closing   bool
 	opts          envOpts
 	hookFired     atomic.Bool
+	faulted       bool            // a transport fault was armed in this case
 	ibbAck        string          // how the peer treats the application's IBB <close/> / <data/> requests (under mu)
 	histClose     int             // close the tracked-history iterator after this many results (<0: never)
 	histSent      int             // tracked-history results the peer has sent (under mu)
@@ -412,14 +414,23 @@ func (e *env) wait(cond func() bool, what string, actions bool) int {
 			}
 		}
 		if !first {
+			// Nobody of this case is parked.  A library goroutine that runs without
+			// end is no better than a parked one.
+			if e.spinning(cond, what) {
+				return waitStall
+			}
 			continue
 		}
 		e.c.Count("stall_rule_applied", 1)
 		parked := stall.Check(nil, 0)
 		if len(parked) > 0 && !quiescent() {
 			// some goroutine of this process is runnable: it may be the one that is
-			// going to wake the parked ones (the machine may be heavily loaded)
+			// going to wake the parked ones (the machine may be heavily loaded) -
+			// or one that spins with the lock the parked ones wait for
 			e.c.Count("stall_rule_not_quiescent", 1)
+			if e.spinning(cond, what) {
+				return waitStall
+			}
 			continue
 		}
 		for _, p := range parked {
@@ -462,6 +473,153 @@ func (e *env) wait(cond func() bool, what string, actions bool) int {
 			return waitStall
 		}
 	}
+}
+
+// poisoned is set once a library goroutine was found spinning: it keeps a CPU
+// busy for as long as this child lives, so the child's remaining cases are
+// skipped (the parent starts fresh children for the other ranges).
+var poisoned atomic.Bool
+
+type gstate struct {
+	id, state string
+	libFrames []string // library functions on the stack, innermost first
+	harness   bool     // innermost non-runtime frame is harness code
+}
+
+var gHead = regexp.MustCompile(`^goroutine (\d+) \[([^\],]+)`)
+
+// dumpStates parses a full stack dump into per-goroutine states.
+func dumpStates() map[string]gstate {
+	buf := make([]byte, 8<<20)
+	n := runtime.Stack(buf, true)
+	out := map[string]gstate{}
+	for _, g := range strings.Split(string(buf[:n]), "\n\n") {
+		lines := strings.Split(g, "\n")
+		m := gHead.FindStringSubmatch(lines[0])
+		if m == nil {
+			continue
+		}
+		st := gstate{id: m[1], state: m[2]}
+		first := true
+		for _, l := range lines[1:] {
+			if strings.HasPrefix(l, "\t") || strings.HasPrefix(l, "created by") || l == "" {
+				continue
+			}
+			if i := strings.LastIndex(l, "("); i > 0 {
+				l = l[:i]
+			}
+			isHarness := strings.HasPrefix(l, "mellium.im/xmpp/verifharness")
+			isLib := !isHarness && strings.HasPrefix(l, "mellium.im/xmpp")
+			if first && !strings.HasPrefix(l, "runtime.") && !strings.HasPrefix(l, "runtime/") {
+				// standard library frames below a library frame (encoding/xml, bufio)
+				// do not decide whose code this is; the first mellium frame does
+				if isHarness {
+					st.harness = true
+					first = false
+				} else if isLib {
+					first = false
+				}
+			}
+			if isLib {
+				f := strings.TrimPrefix(strings.TrimPrefix(l, "mellium.im/xmpp"), "/")
+				st.libFrames = append(st.libFrames, strings.TrimPrefix(f, "."))
+			}
+		}
+		out[st.id] = st
+	}
+	return out
+}
+
+func cpuTime() time.Duration {
+	var ru syscall.Rusage
+	if syscall.Getrusage(syscall.RUSAGE_SELF, &ru) != nil {
+		return 0
+	}
+	return time.Duration(ru.Utime.Nano() + ru.Stime.Nano())
+}
+
+// spinning decides whether a library goroutine of this process runs without
+// end: in eight samples the same goroutine is runnable with library code (not
+// harness code) on top of its stack, no other goroutine except the sampler is
+// runnable, the transport saw no read or write between the first and the last
+// sample, and the process burnt CPU time meanwhile (a goroutine that is merely
+// starved burns none, one that is scheduled and works moves the transport or
+// ends).  The key names the deepest library function common to all samples.
+func (e *env) spinning(cond func() bool, what string) bool {
+	self := goid()
+	r0, w0, _ := e.p.Lib.Ops()
+	cpu0 := cpuTime()
+	var cand map[string][]string // goroutine id -> common library frames
+	for i := 0; i < 8; i++ {
+		if i > 0 {
+			time.Sleep(50 * time.Millisecond)
+		}
+		cur := map[string][]string{}
+		for id, g := range dumpStates() {
+			if id == self {
+				continue
+			}
+			if g.state == "sleep" {
+				return false // a timer is pending somewhere: not quiescent
+			}
+			if g.state != "runnable" && g.state != "running" {
+				continue
+			}
+			if g.harness || len(g.libFrames) == 0 {
+				return false // harness code (or foreign code) is at work: not quiescent
+			}
+			cur[id] = g.libFrames
+		}
+		if len(cur) == 0 {
+			return false
+		}
+		if cand == nil {
+			cand = cur
+			continue
+		}
+		for id, frames := range cand {
+			now, ok := cur[id]
+			if !ok {
+				delete(cand, id)
+				continue
+			}
+			var common []string
+			for _, f := range frames {
+				for _, h := range now {
+					if f == h {
+						common = append(common, f)
+						break
+					}
+				}
+			}
+			cand[id] = common
+		}
+		if len(cand) == 0 {
+			return false
+		}
+	}
+	r1, w1, _ := e.p.Lib.Ops()
+	burnt := cpuTime() - cpu0
+	if r1 != r0 || w1 != w0 || burnt < 30*time.Millisecond || cond() {
+		e.c.Count("spin_rule_no_verdict", 1)
+		return false
+	}
+	for id, frames := range cand {
+		if len(frames) == 0 {
+			continue
+		}
+		if e.c.Violated() {
+			e.c.Count("stall_after_panic_not_judged", 1)
+		} else {
+			e.c.Violate("stall:"+frames[0]+":spinning", "library goroutine %s runs without end in %s while waiting for %s: runnable in eight samples, no transport read or write meanwhile, %v of CPU time burnt, every other goroutine blocked; library frames common to all samples: %v", id, frames[0], what, burnt, frames)
+		}
+		e.mu.Lock()
+		e.wedged = true
+		e.mu.Unlock()
+		poisoned.Store(true)
+		return true
+	}
+	return false
 }
 
 // inputForm says whether the peer's byte stream is a well-formed XMPP stream
@@ -847,6 +1005,15 @@ func (e *env) checkServeNil() {
 	err, panicked, wedged := e.serveErr, e.servePanic, e.wedged
 	e.mu.Unlock()
 	if panicked || wedged || !e.served() {
+		return
+	}
+	if e.faulted {
+		// a transport fault was injected: answers may be lost, reads may end early
+		if err != nil {
+			e.c.Count("serve_returned_error_after_transport_fault", 1)
+		} else {
+			e.c.Count("serve_returned_nil_after_transport_fault", 1)
+		}
 		return
 	}
 	if e.closedLocally {
